@@ -417,6 +417,7 @@ class Exec:
         self.m = mod; self.gaddr = {}; self.faddr = {}; self.addrf = {}
         self.gnext = 0x4000_0000; self.fnext = 0x1000
         self.solver = z3.Solver(); self.nq = 0; self.max_steps = max_steps
+        self.solver.set('timeout', 60000)
         self.pcache = {}
         self.ginit_mem = {}
         self.called = set()
@@ -584,7 +585,9 @@ class Exec:
         vals = []
         try:
             while len(vals) <= limit:
-                if self.solver.check() != z3.sat: break
+                r_ = self.solver.check()
+                if r_ == z3.unknown: raise Unsupported('solver returned unknown while enumerating values')
+                if r_ != z3.sat: break
                 v = self.solver.model().eval(x, model_completion=True).as_long()
                 vals.append(v); self.solver.add(x != v)
         finally:
@@ -652,12 +655,16 @@ class Exec:
         # unique value?
         self.solver.push(); self.solver.add(*st.pc)
         try:
-            if self.solver.check() != z3.sat: raise PathEnd('infeasible')
+            r_ = self.solver.check()
+            if r_ == z3.unknown: raise Unsupported('solver returned unknown while concretising')
+            if r_ != z3.sat: raise PathEnd('infeasible')
             v = self.solver.model().eval(x, model_completion=True).as_long()
             vals = [v]
             while len(vals) <= 64:
                 self.solver.add(x != vals[-1])
-                if self.solver.check() != z3.sat: break
+                r_ = self.solver.check()
+                if r_ == z3.unknown: raise Unsupported('solver returned unknown while concretising')
+                if r_ != z3.sat: break
                 vals.append(self.solver.model().eval(x, model_completion=True).as_long())
             if len(vals) == 1:
                 return v
@@ -1096,7 +1103,20 @@ class Exec:
         m2 = re.match(r'^(u|s)(add|sub)\.sat\.', base)
         if m2:
             a, b = vals; sg, o = m2.groups()
-            if is_sym(a) or is_sym(b): raise Unsupported('sym sat arith')
+            if is_sym(a) or is_sym(b):
+                za = a if is_sym(a) else z3.BitVecVal(a, bits); zb = b if is_sym(b) else z3.BitVecVal(b, bits)
+                if sg == 'u':
+                    if o == 'add':
+                        r = z3.If(z3.ULT(za + zb, za), z3.BitVecVal(mask(bits), bits), za + zb)
+                    else:
+                        r = z3.If(z3.ULT(za, zb), z3.BitVecVal(0, bits), za - zb)
+                else:
+                    wa, wb = z3.SignExt(1, za), z3.SignExt(1, zb)
+                    full = wa + wb if o == 'add' else wa - wb
+                    hi = z3.BitVecVal((1 << (bits - 1)) - 1, bits + 1); lo = z3.BitVecVal(-(1 << (bits - 1)), bits + 1)
+                    r = z3.Extract(bits - 1, 0, z3.If(full > hi, hi, z3.If(full < lo, lo, full)))
+                r = z3.simplify(r)
+                return ret(r.as_long() if z3.is_bv_value(r) else r)
             if sg == 'u':
                 r = a + b if o == 'add' else a - b; r = max(0, min(mask(bits), r)); return ret(r)
             r = tosigned(a, bits) + tosigned(b, bits) if o == 'add' else tosigned(a, bits) - tosigned(b, bits)
